@@ -127,8 +127,8 @@ func (v *astDeclareVistor) Process(node *Node) {
 		//set other value
 		v.code = n.CodeList
 		v.union = n.Union
-		for key, id := range v.idsymtabl {
-			if id.Value == 0 {
+		for _, key := range SortedIdNames(v.idsymtabl) {
+			if v.idsymtabl[key].Value == 0 {
 				v.idMaxValue++
 				v.idsymtabl[key].Value = v.idMaxValue
 			}
@@ -243,7 +243,8 @@ func (w *Walker) BuildLALR1() *lalr.LALR1 {
 		//1. create symbo
 		index := 1
 		// first move the terminal symbol first
-		for _, id := range v.idsymtabl {
+		for _, name := range SortedIdNames(v.idsymtabl) {
+			id := v.idsymtabl[name]
 			if id.IDTyp == TERMID {
 				terminals = append(terminals, id)
 			}
